@@ -303,4 +303,91 @@ theorem run_all_out (f : ℝ → Cost ℝ) (g d : ℝ) (hd : 0 < d) (n : Nat) (l
   obtain ⟨st', hl, hx⟩ := allOut_loop (f := f) (lo := lo) h tol n _ hinit
   simp [run, runSt, hl, hx]
 
+/-! ### the reflected point bounds the next best cost -/
+
+section reflect
+variable (c : ℝ → Cost ℝ)
+
+/-- argmin's reflected point `x0 + (x0 − worst)·α` for the two-vertex simplex -/
+noncomputable def reflectPt (s : Simplex ℝ) : ℝ :=
+  s.b.x * ((1.0 : ℝ) / (1.0 : ℝ)) + (s.b.x * ((1.0 : ℝ) / (1.0 : ℝ)) - s.w.x) * (1.0 : ℝ)
+
+theorem reflectPt_eq (s : Simplex ℝ) : reflectPt s = 2 * s.b.x - s.w.x := by
+  unfold reflectPt; norm_num; ring
+
+/-- the proposed replacement is no worse than the reflected point, unless the reflected point is
+itself no better than the current best -/
+theorem stepCore_bound (hc : ∀ x, c x ≠ .nan) {s : Simplex ℝ} {v : Vtx ℝ}
+    (h : (stepCore c s).1 = some v) :
+    Cost.le v.f (c (reflectPt s)) = true ∨ Cost.le s.b.f (c (reflectPt s)) = true := by
+  have hr := Cost.le_refl (hc (reflectPt s))
+  unfold stepCore at h
+  unfold reflectPt at hr ⊢
+  simp only at h
+  split_ifs at h <;> simp only [Option.some.injEq] at h <;> subst h <;>
+    first
+      | (left; exact hr)
+      | (left; exact Cost.le_of_lt ‹_›)
+      | (right; assumption)
+
+/-- one iteration: additionally, the new best cost is at most the cost of the reflected point -/
+theorem step_le_reflect (hc : ∀ x, c x ≠ .nan) {s : Simplex ℝ} (hs : Inv c s) :
+    ∃ s', step c s = some s' ∧ Inv c s' ∧ Cost.le s'.b.f s.b.f = true ∧
+      Cost.le s'.b.f (c (reflectPt s)) = true := by
+  have hbn : s.b.f ≠ .nan := by rw [hs.hb]; exact hc _
+  obtain ⟨v, hv⟩ := stepCore_isSome c hc hbn
+  have hvc := stepCore_consistent c hv
+  have hvn : v.f ≠ .nan := by rw [hvc]; exact hc _
+  refine ⟨sort2 s.b v, by simp [step, hv], ?_⟩
+  obtain ⟨hi, hl, hl2⟩ := sort2_inv c hs.hb hvc hbn hvn
+  refine ⟨hi, hl, ?_⟩
+  rcases stepCore_bound c hc hv with h | h
+  · exact Cost.le_trans hl2 h
+  · exact Cost.le_trans hl h
+
+/-- one turn of the executor loop when the termination test fails -/
+theorem loop_step (hc : ∀ x, c x ≠ .nan) (tol : ℝ) (n : Nat) {st : St ℝ} (hst : InvSt c st)
+    (hsd : sdSmall st.sx tol = false) :
+    ∃ st1, loop c tol (n + 1) st = loop c tol n st1 ∧ InvSt c st1 ∧
+      Cost.le st1.sx.b.f (c (reflectPt st.sx)) = true := by
+  obtain ⟨sx', hstep, hinv', hle, hler⟩ := step_le_reflect c hc hst.sx
+  have hle' : Cost.le sx'.b.f st.bestF = true := by rw [hst.bestF]; exact hle
+  obtain ⟨hu2, hu1⟩ := upd_track c hinv' hle' hst.bestX
+  refine ⟨⟨sx', (upd sx' st.bestX st.bestF).1, (upd sx' st.bestX st.bestF).2,
+      (stepCore c st.sx).2.reverse ++ st.log⟩, ?_, ⟨hinv', hu2, hu1⟩, hler⟩
+  conv_lhs => unfold loop
+  simp only [hsd, Bool.false_eq_true, if_false, hstep]
+
+end reflect
+
+/-- both seeds above the upper bound but their reflection `g − d` inside the bounds with a finite
+cost: the optimiser returns a point *inside* the bounds (it has walked in from outside) -/
+theorem run_in_bounds_of_reflect (f : ℝ → Cost ℝ) (g d lo hi tol : ℝ) (n : Nat) (hd : 0 < d)
+    (hf : ∀ x, lo ≤ x → x ≤ hi → f x ≠ .nan) (hg : hi < g) (hr0 : lo ≤ g - d) (hr1 : g - d ≤ hi)
+    (hfin : ∃ a, f (g - d) = .fin a) :
+    ∃ x, run f g (g + d) (n + 1) lo hi tol = .ok x ∧ lo ≤ x ∧ x ≤ hi := by
+  have hc := cost1d_ne_nan hf
+  have h0 : cost1d f lo hi g = .inf := cost1d_of_gt hg
+  have h1 : cost1d f lo hi (g + d) = .inf := cost1d_of_gt (by linarith)
+  obtain ⟨hi0, -, -⟩ := init_inv (cost1d f lo hi) hc g (g + d)
+  have hS : (sort2 ⟨g, cost1d f lo hi g⟩ ⟨g + d, cost1d f lo hi (g + d)⟩ : Simplex ℝ) =
+      ⟨⟨g, .inf⟩, ⟨g + d, .inf⟩⟩ := by
+    simp [sort2, h0, h1, Cost.lt]
+  have hsx : (init (cost1d f lo hi) g (g + d)).sx = ⟨⟨g, .inf⟩, ⟨g + d, .inf⟩⟩ := by
+    simp [init, hS]
+  have hsd : sdSmall (init (cost1d f lo hi) g (g + d)).sx tol = false := by
+    rw [hsx]; simp [sdSmall]
+  obtain ⟨st1, hl1, hinv1, hle1⟩ := loop_step (cost1d f lo hi) hc tol n hi0 hsd
+  have hrp : reflectPt (init (cost1d f lo hi) g (g + d)).sx = g - d := by
+    rw [reflectPt_eq, hsx]; ring
+  obtain ⟨a, ha⟩ := hfin
+  rw [hrp, cost1d_of_mem hr0 hr1, ha] at hle1
+  obtain ⟨st', hl, hinv, hle⟩ := loop_inv (cost1d f lo hi) hc tol n st1 hinv1
+  obtain ⟨x, hx, hcx⟩ := hinv.bestX
+  have hfinx : Cost.le (cost1d f lo hi x) (.fin a) = true := by
+    rw [hcx, hinv.bestF]; exact Cost.le_trans hle hle1
+  obtain ⟨y, hy, -⟩ := Cost.fin_of_le_fin hfinx
+  refine ⟨x, ?_, mem_bounds_of_cost1d_fin hy⟩
+  simp [run, runSt, hl1, hl, hx]
+
 end Spdc.NM1D
